@@ -784,9 +784,14 @@ class Engine:
                 assoc_path(self.flow, path, flow_update)
 
         if process_updates:
+            # steps that arrive in the processes dictionary find their
+            # dependencies in the flow that arrives with them
+            new_flow: dict = {}
+            for path, dependencies in flow_updates:
+                assoc_path(new_flow, path, dependencies)
             for path, process in process_updates:
                 assoc_path(self.processes, path, process)
-                self._add_process_path(process, path, {})
+                self._add_process_path(process, path, new_flow)
                 # A process that replaces another one under the same
                 # path starts afresh as well.
                 advance = self.front.pop(path, None)
